@@ -15,33 +15,49 @@
 EXTENDS Integers, Sequences, FiniteSets, TLC
 
 CONSTANTS Threads,      \* e.g. 1..2
-          Kind          \* function Threads -> {"reply", "ack", "ff"}
+          Kind          \* function Threads -> {"reply", "ack", "ff", "cfg0", "cfg1"}
+                        \* cfg0 / cfg1: a thread that switches the endpoint's reply-ack setting off / on (it takes the
+                        \* endpoint lock like a call, writes nothing).  When such a thread exists, whether an "ack"/"ff"
+                        \* call awaits an acknowledgement is decided by the setting at the moment its request is written.
 
 VARIABLES pc,           \* thread -> "idle" | "waitlock" | "sent" | "recv" | "done"
           lock,         \* 0 or the holder
           toPeer,       \* requests on the socket not yet read by the peer (sequence of threads)
           toCaller,     \* answers on the socket not yet read (sequence of thread tags)
           got,          \* thread -> tag of the answer it consumed (0 = none)
-          sched         \* history of controller commands (the schedule), hidden from the state
+          sched,        \* history of controller commands (the schedule), hidden from the state
+          ra,           \* the endpoint's reply-ack setting
+          eff           \* thread -> its request awaits an answer (fixed when the request is written)
 
-vars == <<pc, lock, toPeer, toCaller, got, sched>>
-Awaits(t) == Kind[t] \in {"reply", "ack"}
+vars == <<pc, lock, toPeer, toCaller, got, sched, ra, eff>>
+IsCfg(t) == Kind[t] \in {"cfg0", "cfg1"}
+Dyn == \E t \in Threads : IsCfg(t)
+Awaits(t) == eff[t]
 
 Init == /\ pc = [t \in Threads |-> "idle"] /\ lock = 0 /\ toPeer = <<>> /\ toCaller = <<>>
         /\ got = [t \in Threads |-> 0] /\ sched = <<>>
+        /\ ra = (\E t \in Threads : Kind[t] = "ack")
+        /\ eff = [t \in Threads |-> Kind[t] \in {"reply", "ack"}]
 
 \* the controller starts thread t: it runs up to the lock
 Start(t) == /\ pc[t] = "idle"
             /\ pc' = [pc EXCEPT ![t] = "waitlock"]
             /\ sched' = Append(sched, <<"start", t>>)
-            /\ UNCHANGED <<lock, toPeer, toCaller, got>>
+            /\ UNCHANGED <<lock, toPeer, toCaller, got, ra, eff>>
 
 \* t takes the lock and writes its request, stopping at hold point "*.sent"
-Send(t) == /\ pc[t] = "waitlock" /\ lock = 0
+Send(t) == /\ pc[t] = "waitlock" /\ lock = 0 /\ ~IsCfg(t)
            /\ lock' = t
            /\ toPeer' = Append(toPeer, t)
            /\ pc' = [pc EXCEPT ![t] = "sent"]
-           /\ UNCHANGED <<toCaller, got, sched>>
+           /\ eff' = [eff EXCEPT ![t] = IF Dyn /\ Kind[t] \in {"ack", "ff"} THEN ra ELSE eff[t]]
+           /\ UNCHANGED <<toCaller, got, sched, ra>>
+
+\* a setting change: needs the endpoint lock, hence cannot fall between a request and the consumption of its answer
+Cfg(t) == /\ pc[t] = "waitlock" /\ lock = 0 /\ IsCfg(t)
+          /\ ra' = (Kind[t] = "cfg1")
+          /\ pc' = [pc EXCEPT ![t] = "done"]
+          /\ UNCHANGED <<lock, toPeer, toCaller, got, sched, eff>>
 
 \* the controller releases t from "*.sent"; a fire-and-forget call returns (and unlocks),
 \* the others stop at "*.before_recv"
@@ -49,13 +65,13 @@ ReleaseSent(t) == /\ pc[t] = "sent"
                   /\ IF Awaits(t) THEN pc' = [pc EXCEPT ![t] = "recv"] /\ UNCHANGED lock
                                   ELSE pc' = [pc EXCEPT ![t] = "done"] /\ lock' = 0
                   /\ sched' = Append(sched, <<"release", t>>)
-                  /\ UNCHANGED <<toPeer, toCaller, got>>
+                  /\ UNCHANGED <<toPeer, toCaller, got, ra, eff>>
 
 \* the peer reads the next request and answers it if it is reply/ack-bearing
 Peer == /\ toPeer # <<>>
         /\ toPeer' = Tail(toPeer)
         /\ toCaller' = IF Awaits(Head(toPeer)) THEN Append(toCaller, Head(toPeer)) ELSE toCaller
-        /\ UNCHANGED <<pc, lock, got, sched>>
+        /\ UNCHANGED <<pc, lock, got, sched, ra, eff>>
 
 \* the controller releases t from "*.before_recv": it reads one answer and returns
 ReleaseRecv(t) == /\ pc[t] = "recv" /\ toCaller # <<>>
@@ -64,9 +80,9 @@ ReleaseRecv(t) == /\ pc[t] = "recv" /\ toCaller # <<>>
                   /\ pc' = [pc EXCEPT ![t] = "done"]
                   /\ lock' = 0
                   /\ sched' = Append(sched, <<"release", t>>)
-                  /\ UNCHANGED toPeer
+                  /\ UNCHANGED <<toPeer, ra, eff>>
 
-Next == \E t \in Threads : Start(t) \/ Send(t) \/ ReleaseSent(t) \/ ReleaseRecv(t)
+Next == \E t \in Threads : Start(t) \/ Send(t) \/ Cfg(t) \/ ReleaseSent(t) \/ ReleaseRecv(t)
         \/ Peer
 Spec == Init /\ [][Next]_vars /\ WF_vars(Next)
 
@@ -77,8 +93,10 @@ AllDone == \A t \in Threads : pc[t] = "done"
 Indivisible == \A t \in Threads : (pc[t] \in {"sent", "recv"} /\ Awaits(t)) =>
                     \A u \in Threads \ {t} : pc[u] \notin {"sent", "recv"}
 OwnAnswer == \A t \in Threads : got[t] \in {0, t}
+\* every answer that was asked for is consumed by the call that asked for it, and by nobody else
+ConsumesItsAnswer == \A t \in Threads : (pc[t] = "done" /\ ~IsCfg(t)) => (eff[t] <=> got[t] = t)
 \* no self-deadlock: the only states without successor are those where every call completed
-NoDeadlock == (\A t \in Threads : ~ENABLED Start(t) /\ ~ENABLED Send(t) /\ ~ENABLED ReleaseSent(t) /\ ~ENABLED ReleaseRecv(t)) /\ ~ENABLED Peer
+NoDeadlock == (\A t \in Threads : ~ENABLED Start(t) /\ ~ENABLED Send(t) /\ ~ENABLED Cfg(t) /\ ~ENABLED ReleaseSent(t) /\ ~ENABLED ReleaseRecv(t)) /\ ~ENABLED Peer
                  => AllDone
 Termination == <>AllDone
 =============================================================================
